@@ -101,9 +101,10 @@ Let e := sc_env sc.
 Let nl := sc_nlocks sc.
 Let rk := rk_of sc.
 Let wpol := bs_wp b.
-Notation wp := (Wp.wp nl rk).
+(* the blocking condition, per running call (C01: the rank discipline; C09: see the end of this file) *)
+Variable blk : apiop -> list hold -> lock -> Prop.
 
-Hypothesis EO : env_ok nl rk e.
+Hypothesis EO : env_ok blk e.
 
 Definition Qr_of (lc : tlocal) (o : apiop) : val -> post := fun v H K => TBfin (api_fin e lc o (ODone v)) H K.
 Definition Qt_of (lc : tlocal) (o : apiop) : post := fun H K => TBfin (api_fin e lc o OPanic) H K.
@@ -121,7 +122,7 @@ Definition TI (t : tid) (th : thr) (w : world) : Prop :=
        | None => th_started th = false /\ TB (th_loc th) H K /\ closed (gflag (th_loc th)) (th_rest th) = true
        | Some (o, p) => th_started th = true /\ closed (gflag (th_loc th)) (o :: th_rest th) = true /\
                         (exists op, nextop p = NOp op /\ is_sched op = true) /\
-                        wp p H K (Qr_of (th_loc th) o) (Qt_of (th_loc th) o) (QF_of (th_loc th) o)
+                        Wp.wp (blk o) p H K (Qr_of (th_loc th) o) (Qt_of (th_loc th) o) (QF_of (th_loc th) o)
        end.
 
 Definition frame (t : tid) (w w' : world) : Prop :=
@@ -141,8 +142,8 @@ Proof.
     cbn [closed] in CL. unfold gflag in CL. unfold TB in T. destruct (guard loc); [discriminate|]. exact (proj1 T).
   - destruct (api_prog e loc o) as [p|] eqn:EP.
     2:{ eapply IH; [exact A|exact C|exact T| |exact E]. eapply closed_skip; eassumption. }
-    pose proof (api_wp nl rk e loc o p H K EO T (closed_not_forget _ _ _ CL) EP) as W.
-    pose proof (wp_adv nl rk t p (clear_trace w) H K _ _ _ W (agree_clear _ _ _ _ A) (clean_clear _ C)) as D.
+    pose proof (api_wp blk e loc o p H K EO T (closed_not_forget _ _ _ CL) EP) as W.
+    pose proof (wp_adv (blk o) t p (clear_trace w) H K _ _ _ W (agree_clear _ _ _ _ A) (clean_clear _ C)) as D.
     assert (FR : forall out w1, adv false false t p (clear_trace w) = AFin out w1 \/ (exists p1, adv false false t p (clear_trace w) = APark p1 w1) -> frame t w w1).
     { intros out w1 X u Hu Ku N Y. pose proof (adv_other t u p (clear_trace w) Hu Ku N (agree_clear _ _ _ _ Y)) as Z.
       destruct X as [X|[p1 X]]; rewrite X in Z; exact Z. }
@@ -162,12 +163,12 @@ Qed.
 
 Lemma settle_inv t o loc rest p w evs H K th' w' evs' :
   agree t w H K -> clean w -> closed (gflag loc) (o :: rest) = true ->
-  wp p H K (Qr_of loc o) (Qt_of loc o) (QF_of loc o) ->
+  Wp.wp (blk o) p H K (Qr_of loc o) (Qt_of loc o) (QF_of loc o) ->
   settle false false e t o loc rest p w evs = (th', w', evs') ->
   TI t th' w' /\ clean w' /\ frame t w w'.
 Proof.
   intros A C CL W E. unfold settle in E.
-  pose proof (wp_adv nl rk t p (clear_trace w) H K _ _ _ W (agree_clear _ _ _ _ A) (clean_clear _ C)) as D.
+  pose proof (wp_adv (blk o) t p (clear_trace w) H K _ _ _ W (agree_clear _ _ _ _ A) (clean_clear _ C)) as D.
   assert (FR : forall out w1, adv false false t p (clear_trace w) = AFin out w1 \/ (exists p1, adv false false t p (clear_trace w) = APark p1 w1) -> frame t w w1).
   { intros out w1 X u Hu Ku N Y. pose proof (adv_other t u p (clear_trace w) Hu Ku N (agree_clear _ _ _ _ Y)) as Z.
     destruct X as [X|[p1 X]]; rewrite X in Z; exact Z. }
@@ -224,7 +225,7 @@ Proof.
     - intros u Gu. destruct (gi_out _ _ G u Gu) as [Ku Au]. exists Ku. apply F; [lia|exact Au]. }
   destruct (th_cur (get_thr (b_thr s) t)) as [[o p]|] eqn:CU.
   - destruct R as [ST [CL [NX W]]]. rewrite ST. cbn [negb].
-    pose proof (wp_step nl rk (pendw wpol (b_thr s) t) t p (clear_trace (b_w s)) H K _ _ _ W
+    pose proof (wp_step (blk o) (pendw wpol (b_thr s) t) t p (clear_trace (b_w s)) H K _ _ _ W
                         (agree_clear _ _ _ _ A) (clean_clear _ (gi_clean _ _ G))) as D.
     assert (FS : forall p' w1, step (pendw wpol (b_thr s) t) t p (clear_trace (b_w s)) = SStep p' w1 -> frame t (b_w s) w1).
     { intros p' w1 X u Hu Ku N Y.
@@ -290,6 +291,25 @@ Proof.
   - destruct (memb t (readers (w_raw w l))) eqn:M; [|reflexivity]. apply cnt_memb in M. lia.
 Qed.
 
+(* what a waiting thread holds satisfies the condition of its running call *)
+Lemma GI_blocked n s t k l :
+  GI n s -> parked (get_thr (b_thr s) t) = Some (ORaw k l) -> rop_blocking k = true ->
+  exists H K o p, agree t (b_w s) H K /\ th_cur (get_thr (b_thr s) t) = Some (o, p) /\ blk o H l.
+Proof.
+  intros G PK BL. destruct (Nat.lt_ge_cases t n) as [Lt|Ge].
+  2:{ unfold get_thr in PK. rewrite nth_overflow in PK by (rewrite (gi_len _ _ G); exact Ge). discriminate. }
+  destruct (gi_thr _ _ G t Lt) as [H [K [A R]]]. unfold parked in PK.
+  destruct (th_over (get_thr (b_thr s) t)); cbn [orb] in PK; [discriminate|].
+  destruct (th_started (get_thr (b_thr s) t)); cbn [negb] in PK; [|discriminate].
+  destruct (th_cur (get_thr (b_thr s) t)) as [[o p]|]; [|discriminate].
+  destruct R as [_ [_ [_ W]]]. pose proof (wp_nextop (blk o) p H K _ _ _ W) as N.
+  destruct (nextop p) as [v| | | |op]; try discriminate. inversion PK; subst op.
+  exists H, K, o, p. split; [exact A|]. split; [reflexivity|exact (N BL)].
+Qed.
+
+(* C01: the condition of every call is the rank discipline *)
+Hypothesis BR : forall o H l, blk o H l -> rank_ok nl rk H l.
+
 Theorem GI_stable n s : GI n s -> stable_state nl wpol rk (bound_of sc) s.
 Proof.
   intros G. constructor.
@@ -298,18 +318,18 @@ Proof.
     destruct (gi_thr _ _ G t Lt) as [H [K [A R]]]. rewrite OV in R. unfold parked in PK. rewrite OV in PK.
     destruct (th_started (get_thr (b_thr s) t)); cbn [negb orb] in PK; [|discriminate].
     destruct (th_cur (get_thr (b_thr s) t)) as [[o p]|]; [|discriminate].
-    destruct R as [_ [_ [_ W]]]. pose proof (wp_nextop nl rk p H K _ _ _ W) as N.
+    destruct R as [_ [_ [_ W]]]. pose proof (wp_nextop (blk o) p H K _ _ _ W) as N.
     destruct (nextop p) as [v| | | |op]; try discriminate. inversion PK; subst op.
-    destruct (N BL) as [_ RK]. destruct (agree_holds t (b_w s) H K l' A HH) as [x Hx]. apply (RK _ Hx).
+    destruct (BR _ _ _ (N BL)) as [_ RK]. destruct (agree_holds t (b_w s) H K l' A HH) as [x Hx]. apply (RK _ Hx).
   - intros l. apply rk_bound.
   - (* universe *)
     intros t l [Lt OV] [k [PK [BL _]]]. rewrite (gi_len _ _ G) in Lt.
     destruct (gi_thr _ _ G t Lt) as [H [K [A R]]]. rewrite OV in R. unfold parked in PK. rewrite OV in PK.
     destruct (th_started (get_thr (b_thr s) t)); cbn [negb orb] in PK; [|discriminate].
     destruct (th_cur (get_thr (b_thr s) t)) as [[o p]|]; [|discriminate].
-    destruct R as [_ [_ [_ W]]]. pose proof (wp_nextop nl rk p H K _ _ _ W) as N.
+    destruct R as [_ [_ [_ W]]]. pose proof (wp_nextop (blk o) p H K _ _ _ W) as N.
     destruct (nextop p) as [v| | | |op]; try discriminate. inversion PK; subst op.
-    exact (proj1 (N BL)).
+    exact (proj1 (BR _ _ _ (N BL))).
   - (* holders are live threads *)
     intros u l [Hl HH]. unfold live. rewrite (gi_len _ _ G).
     destruct (Nat.lt_ge_cases u n) as [Lu|Gu].
@@ -363,7 +383,7 @@ Proof.
   intros G.
   assert (X : forall op, parked (get_thr (b_thr s) t) = Some op ->
               exists H K o p, agree t (b_w s) H K /\ nextop p = NOp op /\
-                              wp p H K (Qr_of (th_loc (get_thr (b_thr s) t)) o) (Qt_of (th_loc (get_thr (b_thr s) t)) o)
+                              Wp.wp (blk o) p H K (Qr_of (th_loc (get_thr (b_thr s) t)) o) (Qt_of (th_loc (get_thr (b_thr s) t)) o)
                                  (QF_of (th_loc (get_thr (b_thr s) t)) o)).
   { intros op PK. destruct (Nat.lt_ge_cases t n) as [Lt|Ge].
     2:{ unfold get_thr in PK. rewrite nth_overflow in PK by (rewrite (gi_len _ _ G); exact Ge). discriminate. }
@@ -373,7 +393,7 @@ Proof.
     destruct (th_cur (get_thr (b_thr s) t)) as [[o p]|]; [|discriminate].
     destruct R as [_ [_ [_ W]]]. destruct (nextop p) as [v| | | |op'] eqn:N; try discriminate. inversion PK; subst op'.
     exists H, K, o, p. auto. }
-  split; intros PK; destruct (X _ PK) as [H [K [o [p [A [N W]]]]]]; pose proof (wp_nextop nl rk p H K _ _ _ W) as D; rewrite N in D.
+  split; intros PK; destruct (X _ PK) as [H [K [o [p [A [N W]]]]]]; pose proof (wp_nextop (blk o) p H K _ _ _ W) as D; rewrite N in D.
   - destruct D as [x Hx]. destruct A as [A1 [A2 _]]. unfold holds_b. destruct x.
     + apply hcount_in in Hx. rewrite A1 in Hx. destruct (writer_is (w_raw (b_w s) l) t); [reflexivity|lia].
     + apply hcount_in in Hx. rewrite A2 in Hx. assert (M : memb t (readers (w_raw (b_w s) l)) = true) by (apply cnt_memb; exact Hx).
@@ -432,63 +452,104 @@ Qed.
 
 (* ---------------------------------------------------------------- the hypotheses, as a decidable test of the scenario *)
 Section Decide.
-Variables (nl : nat) (rk : lock -> nat).
+(* a blocking condition per collection, and a boolean test that implies it *)
+Variable blc : nat -> list hold -> lock -> Prop.
+Variable blcb : nat -> list hold -> lock -> bool.
+Hypothesis blcb_ok : forall c H l, blcb c H l = true -> blc c H l.
 
-Definition rank_okb (H : list hold) (l : lock) : bool :=
-  Nat.ltb l nl && forallb (fun x => Nat.ltb (rk (fst x)) (rk l)) H.
+Definition blk_of (o : apiop) : list hold -> lock -> Prop :=
+  match o with AAcquire c _ _ => blc c | _ => fun _ _ => False end.   (* only acquisitions wait *)
 
-Fixpoint ascb (m : mode) (H : list hold) (ls : list lk) : bool :=
-  match ls with [] => true | x :: r => rank_okb H (snd x) && ascb m (hold_of m x :: H) r end.
+Fixpoint ascb (c : nat) (m : mode) (H : list hold) (ls : list lk) : bool :=
+  match ls with [] => true | x :: r => blcb c H (snd x) && ascb c m (hold_of m x :: H) r end.
 
-Definition alg_okb (m : mode) (a : alg) : bool :=
+Definition alg_okb (c : nat) (m : mode) (a : alg) : bool :=
   match a with
-  | AlgLeaf k l => rank_okb [] l
-  | AlgOrdered rs => ascb m [] (rsleaves rs)
-  | AlgRetry rs => forallb (fun r => ascb m [] (rleaves r)) rs
+  | AlgLeaf k l => blcb c [] l
+  | AlgOrdered rs => ascb c m [] (rsleaves rs)
+  | AlgRetry rs => forallb (fun r => ascb c m [] (rleaves r)) rs
   | AlgNone => true
   end.
 
-Lemma rank_okb_ok H l : rank_okb H l = true -> rank_ok nl rk H l.
-Proof.
-  unfold rank_okb. intros E. apply andb_true_iff in E. destruct E as [E1 E2]. split; [now apply Nat.ltb_lt|].
-  rewrite forallb_forall in E2. intros x Hx. apply Nat.ltb_lt. now apply E2.
-Qed.
-
-Lemma ascb_ok m ls : forall H, ascb m H ls = true -> asc nl rk m H ls.
+Lemma ascb_ok c m ls : forall H, ascb c m H ls = true -> asc (blc c) m H ls.
 Proof.
   induction ls as [|x r IH]; intros H E; cbn [ascb asc] in *; [exact I|].
-  apply andb_true_iff in E. destruct E as [E1 E2]. split; [now apply rank_okb_ok|now apply IH].
+  apply andb_true_iff in E. destruct E as [E1 E2]. split; [now apply blcb_ok|now apply IH].
 Qed.
 
-Lemma alg_okb_ok m a : alg_okb m a = true -> alg_ok nl rk m a.
+Lemma alg_okb_ok c m a : alg_okb c m a = true -> alg_ok (blc c) m a.
 Proof.
   destruct a as [k l|rs|rs|]; cbn [alg_okb alg_ok]; intros E.
-  - now apply rank_okb_ok.
+  - now apply blcb_ok.
   - now apply ascb_ok.
   - apply Forall_forall. intros r Hr. rewrite forallb_forall in E. apply ascb_ok. now apply E.
   - exact I.
 Qed.
 
 Definition env_okb (e : env) : bool :=
-  forallb (fun s => acquirable s && alg_okb Sh (alg_of (e_am e) s) && alg_okb Ex (alg_of (e_am e) s)) (e_colls e).
+  forallb (fun x => acquirable (snd x) && alg_okb (fst x) Sh (alg_of (e_am e) (snd x)) && alg_okb (fst x) Ex (alg_of (e_am e) (snd x)))
+          (combine (seq 0 (length (e_colls e))) (e_colls e)).
 
-Lemma env_okb_ok e : env_okb e = true -> env_ok nl rk e.
+Lemma nth_error_combine_seq {A} (l : list A) : forall n c x, nth_error l c = Some x -> In (n + c, x) (combine (seq n (length l)) l).
+Proof.
+  induction l as [|y r IH]; intros n c x E; [destruct c; discriminate|].
+  destruct c as [|c]; cbn [nth_error] in E.
+  - inversion E; subst. cbn [length seq combine]. left. f_equal. lia.
+  - cbn [length seq combine]. right. replace (n + S c) with (S n + c) by lia. apply IH. exact E.
+Qed.
+
+Lemma env_okb_ok e : env_okb e = true -> env_ok blk_of e.
 Proof.
   unfold env_okb, env_ok, coll. intros E c s Hc. rewrite forallb_forall in E.
-  specialize (E s (nth_error_In _ _ Hc)). apply andb_true_iff in E. destruct E as [E E3].
-  apply andb_true_iff in E. destruct E as [E1 E2]. split; [exact E1|]. intros [|]; now apply alg_okb_ok.
+  specialize (E (c, s) (nth_error_combine_seq (e_colls e) 0 c s Hc)). cbn [fst snd] in E.
+  apply andb_true_iff in E. destruct E as [E E3].
+  apply andb_true_iff in E. destruct E as [E1 E2]. split; [exact E1|]. intros [|] f; cbn [blk_of]; now apply alg_okb_ok.
 Qed.
-End Decide.
 
 Definition is_nilb {A} (l : list A) : bool := match l with [] => true | _ => false end.
 
-(* the scenarios the theorem speaks about: no ghost holds, no injected faults, every collection's blocking
-   acquisitions ascend in rank, and every thread's program drops the guards it takes *)
-Definition wfB (b : bscen) : bool :=
+(* the scenarios the theorems speak about: no ghost holds, no injected faults, every collection's blocking
+   acquisitions satisfy the condition, and every thread's program drops the guards it takes *)
+Definition wfB_gen (b : bscen) : bool :=
   let sc := bs_sc b in
   is_nilb (sc_pre sc) && is_nilb (sc_f1 sc) && is_nilb (sc_fp sc) &&
   forallb (closed false) (bs_progs b) &&
-  env_okb (sc_nlocks sc) (rk_of sc) (sc_env sc).
+  env_okb (sc_env sc).
+
+Lemma wfB_parts b : wfB_gen b = true ->
+  env_ok blk_of (sc_env (bs_sc b)) /\ sc_pre (bs_sc b) = [] /\ sc_f1 (bs_sc b) = [] /\
+  sc_fp (bs_sc b) = [] /\ Forall (fun ops => closed false ops = true) (bs_progs b).
+Proof.
+  unfold wfB_gen. intros W. repeat (apply andb_true_iff in W; destruct W as [W ?]).
+  split; [now apply env_okb_ok|].
+  split; [destruct (sc_pre (bs_sc b)); [reflexivity|discriminate]|].
+  split; [destruct (sc_f1 (bs_sc b)); [reflexivity|discriminate]|].
+  split; [destruct (sc_fp (bs_sc b)); [reflexivity|discriminate]|].
+  apply Forall_forall. intros ops Ho. rewrite forallb_forall in H0. now apply H0.
+Qed.
+
+Lemma reach_GI_dec b sched : wfB_gen b = true ->
+  GI b blk_of (length (bs_progs b))
+     (fst (run_sched (bs_wp b) (sc_env (bs_sc b)) (sc_nlocks (bs_sc b)) (binit b) sched)).
+Proof. intros W. destruct (wfB_parts b W) as [EO [PRE [F1 [FP CL]]]]. apply reach_GI; assumption. Qed.
+End Decide.
+
+(* ---------------------------------------------------------------- C01 *)
+Definition rank_okb (nl : nat) (rk : lock -> nat) (H : list hold) (l : lock) : bool :=
+  Nat.ltb l nl && forallb (fun x => Nat.ltb (rk (fst x)) (rk l)) H.
+
+Lemma rank_okb_ok nl rk H l : rank_okb nl rk H l = true -> rank_ok nl rk H l.
+Proof.
+  unfold rank_okb. intros E. apply andb_true_iff in E. destruct E as [E1 E2]. split; [now apply Nat.ltb_lt|].
+  rewrite forallb_forall in E2. intros x Hx. apply Nat.ltb_lt. now apply E2.
+Qed.
+
+(* every collection's blocking acquisitions ascend in the scenario's address-based rank *)
+Definition wfB (b : bscen) : bool :=
+  wfB_gen (fun _ => rank_okb (sc_nlocks (bs_sc b)) (rk_of (bs_sc b))) b.
+
+Lemma blk_rank nl rk o H l : blk_of (fun _ => rank_ok nl rk) o H l -> rank_ok nl rk H l.
+Proof. destruct o; cbn [blk_of]; tauto. Qed.
 
 Theorem every_schedule_stable_dec b sched :
   wfB b = true ->
@@ -496,13 +557,10 @@ Theorem every_schedule_stable_dec b sched :
   stable_state (sc_nlocks sc) (bs_wp b) (rk_of sc) (bound_of sc)
                (fst (run_sched (bs_wp b) (sc_env sc) (sc_nlocks sc) (binit b) sched)).
 Proof.
-  unfold wfB. intros W. repeat (apply andb_true_iff in W; destruct W as [W ?]).
-  apply every_schedule_stable.
-  - now apply env_okb_ok.
-  - destruct (sc_pre (bs_sc b)); [reflexivity|discriminate].
-  - destruct (sc_f1 (bs_sc b)); [reflexivity|discriminate].
-  - destruct (sc_fp (bs_sc b)); [reflexivity|discriminate].
-  - apply Forall_forall. intros ops Ho. rewrite forallb_forall in H0. now apply H0.
+  intros W sc.
+  pose proof (reach_GI_dec (fun _ => rank_ok (sc_nlocks sc) (rk_of sc)) (fun _ => rank_okb (sc_nlocks sc) (rk_of sc))
+                           (fun _ H l => rank_okb_ok _ _ H l) b sched W) as G.
+  eapply GI_stable; [|exact G]. intros o H l. apply blk_rank.
 Qed.
 
 (* no schedule leads the model into a deadlock *)
@@ -555,18 +613,6 @@ Proof.
 Qed.
 
 (* ---------------------------------------------------------------- C02 on every schedule *)
-Lemma wfB_parts b : wfB b = true ->
-  env_ok (sc_nlocks (bs_sc b)) (rk_of (bs_sc b)) (sc_env (bs_sc b)) /\ sc_pre (bs_sc b) = [] /\ sc_f1 (bs_sc b) = [] /\
-  sc_fp (bs_sc b) = [] /\ Forall (fun ops => closed false ops = true) (bs_progs b).
-Proof.
-  unfold wfB. intros W. repeat (apply andb_true_iff in W; destruct W as [W ?]).
-  split; [now apply env_okb_ok|].
-  split; [destruct (sc_pre (bs_sc b)); [reflexivity|discriminate]|].
-  split; [destruct (sc_f1 (bs_sc b)); [reflexivity|discriminate]|].
-  split; [destruct (sc_fp (bs_sc b)); [reflexivity|discriminate]|].
-  apply Forall_forall. intros ops Ho. rewrite forallb_forall in H0. now apply H0.
-Qed.
-
 Theorem every_schedule_data_under_hold b sched t pos l :
   wfB b = true ->
   let sc := bs_sc b in
@@ -574,8 +620,9 @@ Theorem every_schedule_data_under_hold b sched t pos l :
   (parked (get_thr (b_thr s) t) = Some (ORead pos l) -> holds_b (b_w s) t l = true) /\
   (parked (get_thr (b_thr s) t) = Some (OWrite pos l) -> writer_is (w_raw (b_w s) l) t = true).
 Proof.
-  intros W sc s. destruct (wfB_parts b W) as [EO [PRE [F1 [FP CL]]]].
-  eapply GI_data. apply reach_GI; assumption.
+  intros W sc s. eapply GI_data.
+  apply (reach_GI_dec (fun _ => rank_ok (sc_nlocks sc) (rk_of sc)) (fun _ => rank_okb (sc_nlocks sc) (rk_of sc))
+                      (fun _ H l => rank_okb_ok _ _ H l) b sched W).
 Qed.
 
 (* two threads are never at conflicting accesses of the same lock's data *)
@@ -590,7 +637,8 @@ Proof.
   intros W sc s N PT.
   pose proof (proj2 (every_schedule_data_under_hold b sched t pos l W) PT) as WT. fold sc in WT. fold s in WT.
   assert (R : rawwf (b_w s)).
-  { apply run_sched_rawwf. unfold binit. cbn [b_w]. destruct (wfB_parts b W) as [_ [PRE _]].
+  { apply run_sched_rawwf. unfold binit. cbn [b_w].
+    destruct (wfB_parts _ _ (fun _ H l => rank_okb_ok _ _ H l) b W) as [_ [PRE _]].
     intros l0. unfold sc_world. rewrite PRE. cbn [fold_right w_raw]. intros X. reflexivity. }
   unfold writer_is in WT. destruct (writer (w_raw (b_w s) l)) as [x|] eqn:EW; [|discriminate]. apply Nat.eqb_eq in WT. subst x.
   split; intros PU.
